@@ -30,7 +30,7 @@ CHECKS = {
    "Trusted: document generator (order known by construction), the instrumented resolvers' event log, map-order seam.",
    "seeded deferral-fault plans + controlled map-iteration order, event-log ordering oracle", "§5 C13"),
  "C04": ("fault_enumeration",
-   "Every single (response position, applicable fault kind, entry point) placement over a 34-request pool covering the nullability lattice is enumerated and multi-fault plans are sampled; the response is compared with a null-propagation reference model applied to the fault-free run (exact data equality, required error paths, error paths address nulls). One recorded defect (non-null failure crossing a deferred position) is a known finding.",
+   "Every single (response position, applicable fault kind, entry point) placement over a 38-request pool covering the nullability lattice, lists of leaves, abstract and single-possible-type positions is enumerated (about 10 000 placements; 27 fault kinds incl. element-level faults and deferred list elements) and multi-fault plans are sampled; the response is compared with a null-propagation reference model applied to the fault-free run (exact data equality, required error paths with order-aware shadowing, error paths address nulls) and with an independent selected-response-keys oracle (sim/selcheck.go). One recorded defect (non-null failure crossing a deferred position) is a known finding.",
    "Trusted: the reference model in sim/c04.go (about 60 lines), declared types recorded from ResolveInfo.ReturnType in the fault-free run. Soft faults (wrong Go kind at a nullable leaf, NaN, out-of-range, unknown enum value) accept null or a kind-conformant leaf.",
    "enumerated callback-fault plans against a null-propagation reference model", "§5 C04"),
 }
@@ -39,7 +39,7 @@ CHECKS["C12"] = ("exploration",
    "Trusted: the map-order seam (tools/maporder rewrites every range-over-map of the library; 0 uncontrolled loops is asserted in the evidence); any permutation is admissible because Go leaves the order unspecified. Not covered: Go runtime nondeterminism other than map order and select.",
    "controlled hash-map iteration order (seeded permutations) + seeded request histories, byte-equality oracle", "§5 C12")
 CHECKS["C06"] = ("exploration",
-   "Every ordered pair of a 72-request near-collision pool (a, b, a) is pushed through a fresh cache with Normalize on and off (enumerated); seeded histories of Get+ExecutePlan, plan re-execution with other variables, Reset and schema replacement run under seeded cache knobs (MaxEntries 1-4/default, tiny MaxQueryBytes, nil cache). After every operation the response must equal graphql.Do of the same request from scratch (including error responses), the entry count must respect the bound, counters must be monotone.",
+   "Every ordered pair of an 85-request near-collision pool (a, b, a) is pushed through a fresh cache with Normalize on and off (enumerated); seeded histories of Get+ExecutePlan, plan re-execution with other variables, Reset and schema replacement run under seeded cache knobs (MaxEntries 1-4/default, tiny MaxQueryBytes, nil cache), and an interleaved variant runs two clients on two same-shape schemas through one cache on the seeded scheduler (double misses, racing stores). After every operation the response must equal graphql.Do of the same request from scratch (including error responses), the entry count must respect the bound, counters must be monotone. The thorough tier also runs the race build. One recorded defect (error locations of a normalised hit) is a known finding.",
    "Trusted: graphql.Do of the same library as the from-scratch reference (a bug that corrupts both paths identically is C01's business); the echo world makes every argument, alias, included sibling and schema id visible in the response. 'The original document is not modified' is not observable through Get(text) and is not claimed.",
    "seeded operation histories + enumerated request pairs against a from-scratch reference execution", "§5 C06")
 CHECKS["C15"] = ("exploration",
